@@ -382,7 +382,7 @@ def check(run: Run) -> None:
                         "payload accessors and the argument checks of the move path) - a step one sibling forgets (a record, a parent notification, a window roll) is a "
                         "modification the other sibling reports and this one does not"):
         from collections import Counter
-        STEP = re.compile(r"record|notify|touch|mark|prepare|ensure|reset|clear|roll|stamp|publish|erase|insert|remove|invalidate|push|pop|resize|append|reserve|destroy|construct|assign")  # bookkeeping, not accessors
+        STEP = re.compile(r"record|notify|touch|mark|prepare|reset|clear|roll|stamp|publish|erase|insert|remove|invalidate|push|pop|append")  # tracking / structural steps; accessors and capacity management (reserve, ensure_capacity) are not counted
         XFER = {"X", "binding", "data", "valid", "writable_payload", "ctx", "has_value", "invalid_argument", "logic_error", "schema", "value_kind", "name"}
         PAIRS = [("src/hgraph/types/metadata/ts_data_atomic_ops.cpp", "atomic_copy_value_from", "atomic_move_value_from"),
                  ("src/hgraph/types/metadata/ts_data_fixed_structured_ops.cpp", "fixed_copy_value_from", "fixed_move_value_from"),
